@@ -2,7 +2,7 @@
  *
  *   priv <programs-file> <first> <last>        runs programs first..last-1 of the file, in sequence
  * A line of the file is "<A> <B> <pattern>": rank r runs A if (pattern==0 ? r==0 : r%2==0) else B ("-" = empty program).
- * Ops: G write globals (.bss, .data and the last element of a 64 kB .bss array), S write statics (file-scope .bss/.data and a function-local static),
+ * Ops: G write globals (.bss, .data and the last element of a 16 kB .bss array), S write statics (file-scope .bss/.data and a function-local static),
  *      C check own values, B MPI_Barrier, R ring Sendrecv of one int from/to *global* buffers (eager, detached copy),
  *      Q ring Sendrecv of 1 kB from/to global arrays (above smpi/send-is-detached-thresh:128, not detached: copied by the kernel while another rank is loaded),
  *      Z sleep for a rank-dependent time.
@@ -25,8 +25,8 @@ int g_xfer;
 int g_recv;
 int g_bigs[BIG];
 int g_bigr[BIG];
-#define FAR 16384
-int g_far[FAR]; /* its last element is 64 kB further: in the anonymous part of .bss, after the file-backed rw- mapping */
+#define FAR 4096
+int g_far[FAR]; /* its last element is 16 kB further: in the anonymous part of .bss, after the file-backed rw- mapping */
 static int* fstatic(void)
 {
   static int f_static = 11;
@@ -66,7 +66,7 @@ static void viol(struct st* s, const char* what, const char* var_name, long got,
   long w           = got / 1000000 - 1;
   const char* kind = (w >= 0 && w < s->np && w != s->rank) ? "foreign-value" : "wrong-value";
   s->viol++;
-  if (s->pviol++ < 3) /* at most three records per program and rank */
+  if (s->pviol++ < 12) /* at most twelve records per program and rank */
     printf("V kind=%s%s prog=%s:%s:%d idx=%d np=%d rank=%d step=%d var=%s got=%ld exp=%ld\n", what, kind, s->a, s->b,
            s->pattern, s->idx, s->np, s->rank, s->step, var_name, got, exp);
 }
